@@ -26,36 +26,36 @@ func (a *Asm) Bytes() []byte           { return a.b }
 func (a *Asm) Len() int                { return len(a.b) }
 
 const (
-	opSTOP         = 0x00
-	opCALLDATASIZE = 0x36
-	opCALLDATACOPY = 0x37
-	opPOP          = 0x50
-	opMLOAD        = 0x51
-	opMSTORE       = 0x52
-	opSLOAD        = 0x54
-	opSSTORE       = 0x55
-	opJUMP         = 0x56
-	opJUMPI        = 0x57
-	opMSIZE        = 0x59
-	opGAS          = 0x5a
-	opJUMPDEST     = 0x5b
-	opTLOAD        = 0x5c
-	opTSTORE       = 0x5d
-	opMCOPY        = 0x5e
-	opPUSH1        = 0x60
-	opDUP1         = 0x80
-	opSWAP1        = 0x90
-	opLOG0         = 0xa0
-	opCREATE       = 0xf0
-	opCALL         = 0xf1
-	opCALLCODE     = 0xf2
-	opRETURN       = 0xf3
-	opDELEGATECALL = 0xf4
-	opCREATE2      = 0xf5
-	opSTATICCALL   = 0xfa
-	opREVERT       = 0xfd
-	opINVALID      = 0xfe
-	opSELFDESTRUCT = 0xff
+	opSTOP           = 0x00
+	opCALLDATASIZE   = 0x36
+	opCALLDATACOPY   = 0x37
+	opPOP            = 0x50
+	opMLOAD          = 0x51
+	opMSTORE         = 0x52
+	opSLOAD          = 0x54
+	opSSTORE         = 0x55
+	opJUMP           = 0x56
+	opJUMPI          = 0x57
+	opMSIZE          = 0x59
+	opGAS            = 0x5a
+	opJUMPDEST       = 0x5b
+	opTLOAD          = 0x5c
+	opTSTORE         = 0x5d
+	opMCOPY          = 0x5e
+	opPUSH1          = 0x60
+	opDUP1           = 0x80
+	opSWAP1          = 0x90
+	opLOG0           = 0xa0
+	opCREATE         = 0xf0
+	opCALL           = 0xf1
+	opCALLCODE       = 0xf2
+	opRETURN         = 0xf3
+	opDELEGATECALL   = 0xf4
+	opCREATE2        = 0xf5
+	opSTATICCALL     = 0xfa
+	opREVERT         = 0xfd
+	opINVALID        = 0xfe
+	opSELFDESTRUCT   = 0xff
 	opRETURNDATASIZE = 0x3d
 	opRETURNDATACOPY = 0x3e
 )
